@@ -848,11 +848,11 @@ class FieldValueMimeType(FieldValueComponentBase):
     def _parse(cls, parsable):
         parser = ParserText(parsable)
 
-        parser.parse_string_until_separator('registry', '/', item_class=MimeTypeRegistry)
+        parser.parse_string_until_separator('registry', '/', item_class=lambda value: MimeTypeRegistry(value.lower()))
         parser.parse_separator('/')
         parser.parse_string_by_length('type', parser.unparsed_length)
 
-        return FieldValueMimeType(**parser), parser.parsed_length
+        return FieldValueMimeType(type=parser['type'].lower(), registry=parser['registry']), parser.parsed_length
 
     def compose(self):
         composer = ComposerText()
